@@ -98,6 +98,21 @@ def run(rep, tier, rng):
                         add(f"check_similarity_norm {c.zmat(vecs)} {c.zmat(dv)} {T} {sobs(os_, algs.enc_mat)}", dict(base, op="similarity-tiny-magnitude", obs=repr(os_)[:200]),
                             ("sim-tiny", fn, dn, n, zero_row, tuple(map(tuple, vecs)), tuple(map(tuple, dv))), nontrivial=n >= 2)
 
+                # integer-typed data (one-hot / count vectors) against a vocabulary of non-integer vectors: exactly the dot products
+                if n and not norm and fn in ("ndarray", "list-of-arrays", "list-of-pointers") and dn in ("(d,)", "(T,d)"):
+                    data_i = np.asarray(dv[0] if single else dv, dtype=int)
+                    quarter = {"ndarray": lambda: np.asarray(fv, dtype=float) * 0.25, "list-of-arrays": lambda: [np.asarray(x_) * 0.25 for x_ in fv],
+                               "list-of-pointers": lambda: [SemanticPointer(x_.v * 0.25) for x_ in fv]}[fn]()
+                    oi_ = c.outcome(lambda: similarity(data_i, quarter, normalize=False))
+                    rep.case(("sim-int-data", fn, dn, n, zero_row, tuple(map(tuple, vecs))))
+                    rep.count("similarity-integer-data")
+                    if o[0] == "ok" and (oi_[0] != "ok" or not np.allclose(np.asarray(oi_[1], dtype=float), 0.25 * np.asarray(o[1], dtype=float), atol=1e-12)):
+                        rep.violation(f"similarity of integer-typed data with a {fn} vocabulary of non-integer vectors is not the dot products",
+                                      {"case": {"form": fn, "shape": dn, "vectors_times_4": vecs, "data": dv}, "observed": repr(oi_[1])[:200],
+                                       "expected": (0.25 * np.asarray(o[1], dtype=float)).tolist(),
+                                       "python": "import numpy as np\nfrom nengo_spa.examine import similarity\n"
+                                                 f"data = np.array({dv[0] if single else dv!r}, dtype=int); voc = np.array({vecs!r}, float) * 0.25\n"
+                                                 "assert np.allclose(similarity(data, voc), data @ voc.T), similarity(data, voc)\n"})
                 # 32-bit data (e.g. probe data of a 32-bit simulation) and 32-bit vocabulary arrays: zero vectors still give 0, never NaN
                 if n and fn in ("ndarray", "list-of-arrays") and dn in ("(d,)", "(T,d)"):
                     data32 = np.asarray(data, dtype=np.float32)
@@ -176,12 +191,15 @@ def run(rep, tier, rng):
                 for raw, normed in (([2.0] + [0.0] * (d - 1), [4] + [0] * (d - 1)), ([1.0] * 4 + [0.0] * (d - 4), [2] * 4 + [0] * (d - 4)),
                                     ([0.0, -8.0] + [0.0] * (d - 2), [0, -4] + [0] * (d - 2))):
                     for (mn, mx, th) in ((n, None, None), (None, None, 0.125), (1, 2, 0)):
-                        o = c.observe(lambda: text(SemanticPointer(np.array(raw)), voc, minimum_count=mn, maximum_count=mx, threshold=th, normalize=True))
                         cth = "None" if th is None else f"(Some {c.z(int(th * (1 << k)))})"
-                        add(f"check_text {k} {c.opt(mn, str)} {c.opt(mx, str)} {cth} {c.zlist(normed)} {c.zmat(ivecs)} "
-                            f"{c.lst([c.s(t) for t in names[:n]])} {sobs(o, c.s)}",
-                            {"op": "text-normalize", "n": n, "min": mn, "max": mx, "threshold": th, "terms": None, "v": raw, "vectors": ivecs, "obs": repr(o)[:200]},
-                            ("text-normalize", n, mn, mx, th, tuple(raw), tuple(map(tuple, ivecs))), nontrivial=n >= 2)
+                        # the queried vector as a Semantic Pointer, an ndarray, a list, a tuple: the same vector in every form
+                        for vform, vmk in (("SemanticPointer", lambda: SemanticPointer(np.array(raw))), ("ndarray", lambda: np.array(raw)),
+                                           ("list", lambda: list(raw)), ("tuple", lambda: tuple(raw))):
+                            o = c.observe(lambda: text(vmk(), voc, minimum_count=mn, maximum_count=mx, threshold=th, normalize=True))
+                            add(f"check_text {k} {c.opt(mn, str)} {c.opt(mx, str)} {cth} {c.zlist(normed)} {c.zmat(ivecs)} "
+                                f"{c.lst([c.s(t) for t in names[:n]])} {sobs(o, c.s)}",
+                                {"op": "text-normalize", "n": n, "min": mn, "max": mx, "threshold": th, "terms": None, "v": raw, "v_form": vform, "vectors": ivecs, "obs": repr(o)[:200]},
+                                ("text-normalize", vform, n, mn, mx, th, tuple(raw), tuple(map(tuple, ivecs))), nontrivial=n >= 2)
             # ordering property with normalize=True (digits are not compared)
             if n >= 2:
                 o = c.observe(lambda: text(vptr, voc, minimum_count=n, threshold=None, normalize=True))
